@@ -50,6 +50,28 @@ def main():
 
         print(json.dumps(c02.histories_for_child(record)))
         return 0
+    if argv and argv[0] == 'selftest-workers':
+        # the same batch under different worker counts / chunk interleavings must execute identical runs
+        import subprocess
+        import tempfile
+
+        props = argv[1:] or ALL
+        bad = 0
+        for p in props:
+            ds = []
+            for w in ('3', '16'):
+                out = tempfile.mkdtemp(prefix='gvwk.')
+                env = dict(os.environ, VERIF_OUT=out, VERIF_WORKERS=w)
+                r = subprocess.run([sys.executable, os.path.join(HERE, 'check.py'), p, '--runs', '160', '--seed', '4242'], capture_output=True, text=True, env=env)
+                line = [l for l in r.stdout.splitlines() if 'runs_digest=' in l]
+                ds.append(line[-1].split('runs_digest=')[1].strip() if line else 'none:' + r.stdout[-200:])
+                import shutil
+
+                shutil.rmtree(out, ignore_errors=True)
+            ok = ds[0] == ds[1] and not ds[0].startswith('none')
+            bad += 0 if ok else 1
+            print(f'workers {p}: {"OK" if ok else "DIVERGED"} {ds}', flush=True)
+        return 2 if bad else 0
     if argv and argv[0] == 'selftest-determinism':
         props = argv[1:] or [p for p in ALL if os.path.exists(os.path.join(HERE, 'gvsim', 'props', p.lower() + '.py'))]
         return kernel.selftest_determinism(props)
